@@ -1,5 +1,6 @@
 import DuneVerif.Proofs.C02Closed
 import DuneVerif.Proofs.C02Main
+import DuneVerif.Proofs.C02Minor
 import Mathlib.LinearAlgebra.Matrix.NonsingularInverse
 import Mathlib.LinearAlgebra.Matrix.ToLinearEquiv
 import Mathlib.Algebra.Order.Field.Rat
@@ -276,6 +277,41 @@ theorem invertLU_nonsingular {absval : K → Q} (habs : AbsLike absval) (A : Mat
     have hok' : (luDecomp true absval pivotFunc A idPivot).ok = false := by simpa using hok
     exact absurd ((lu_pivot_run true habs A).2 hok' rfl) hdet
 
+/-- **"without pivoting whenever the unpivoted elimination is defined"**: the unpivoted decomposition runs
+through exactly when all leading principal minors of `A` are nonzero (`leadingMinor A k` = minor of order `k+1`),
+and then solve / determinant / invert without pivoting are correct. -/
+theorem solveLU_nopivot_iff_minors {absval : K → Q} (habs : AbsLike absval) (A : Mat n K) (b : Vec n K) :
+    (∃ x, solveLU false absval A b = .ok x) ↔ ∀ k : Fin n, leadingMinor A k ≠ 0 := by
+  rw [← nopivot_ok_iff_minors habs elimFunc A b]
+  unfold solveLU
+  constructor
+  · rintro ⟨x, hx⟩
+    split at hx
+    · assumption
+    · cases hx
+  · intro hok
+    rw [if_pos hok]
+    exact ⟨_, rfl⟩
+
+theorem solveLU_nopivot_correct {absval : K → Q} (habs : AbsLike absval) (A : Mat n K) (b : Vec n K)
+    (hmin : ∀ k : Fin n, leadingMinor A k ≠ 0) :
+    ∃ x, solveLU false absval A b = .ok x ∧ toMatrix A *ᵥ x.f = b.f := by
+  obtain ⟨x, hx⟩ := (solveLU_nopivot_iff_minors habs A b).mpr hmin
+  exact ⟨x, hx, solveLU_correct false habs A b x hx⟩
+
+theorem detLU_nopivot_of_minors {absval : K → Q} (habs : AbsLike absval) (A : Mat n K)
+    (hmin : ∀ k : Fin n, leadingMinor A k ≠ 0) : detLU false absval A = (toMatrix A).det :=
+  detLU_nopivot_eq_det habs A ((nopivot_ok_iff_minors habs detFunc A (1 : K)).mpr hmin)
+
+theorem invertLU_nopivot_of_minors {absval : K → Q} (habs : AbsLike absval) (A : Mat n K)
+    (hmin : ∀ k : Fin n, leadingMinor A k ≠ 0) :
+    ∃ B, invertLU false absval A = .ok B ∧ toMatrix A * toMatrix B = 1 ∧ toMatrix B * toMatrix A = 1 := by
+  have hok := (nopivot_ok_iff_minors habs pivotFunc A idPivot).mpr hmin
+  have : ∃ B, invertLU false absval A = .ok B := by
+    unfold invertLU; rw [if_pos hok]; exact ⟨_, rfl⟩
+  obtain ⟨B, hB⟩ := this
+  exact ⟨B, hB, invertLU_correct false habs A B hB⟩
+
 /-! non-vacuity: `|·|` on ℚ is an admissible absolute value; a concrete 4×4 matrix that needs a row swap in the
 first step is nonsingular, so solve/invert with pivoting return and the theorems above apply to it. -/
 theorem absLike_abs_rat : AbsLike (fun x : ℚ => |x|) := ⟨fun _ => abs_eq_zero, fun _ => abs_nonneg _⟩
@@ -295,6 +331,21 @@ example : ∃ B, invertLU true (fun x : ℚ => |x|) exA = .ok B :=
   invertLU_nonsingular absLike_abs_rat exA exA_det
 example : detLU true (fun x : ℚ => |x|) exA ≠ 0 := by
   rw [detLU_eq_det absLike_abs_rat]; exact exA_det
+/-- all leading principal minors of a concrete lower triangular 4×4 matrix are nonzero -/
+example : ∀ k : Fin 4, leadingMinor (Mat.ofFn ![![2, 0, 0, 0], ![1, 3, 0, 0], ![4, 1, 5, 0], ![1, 1, 1, 7]] : Mat 4 ℚ) k ≠ 0 := by
+  intro k
+  unfold leadingMinor
+  rw [det_of_isLowerTriangular]
+  · apply Finset.prod_ne_zero_iff.mpr
+    intro j _
+    obtain ⟨j, hj⟩ := j
+    fin_cases j <;> simp [toSquareBlockProp_def]
+  · intro r c hrc
+    have hlt : r < c := by simpa using hrc
+    obtain ⟨r, hr⟩ := r
+    obtain ⟨c, hc⟩ := c
+    have hlt' : r < c := hlt
+    fin_cases r <;> fin_cases c <;> simp_all [toSquareBlockProp_def]
 /-- a singular 4×4 example for the error clauses -/
 example : (toMatrix (Mat.ofFn (fun _ _ => (1 : ℚ)) : Mat 4 ℚ)).det = 0 := by
   apply Matrix.det_zero_of_row_eq (i := 0) (j := 1) (by decide)
